@@ -43,6 +43,7 @@ class Exec:
         self.type_hints: Dict[int, Any] = {}
         self.summaries: Dict[str, Any] = {}  # qualname -> hook(ex, fi, args, kwargs, st, node) -> Term | None
         self._prop_getters: Dict[int, FuncInfo] = {}
+        self._dead = None
         self.sym_bytes = False  # bytes(<known items>) yields an 'sbytes' value instead of an opaque call
         self.replaced_bases: set = set()
         if registered:
@@ -96,6 +97,10 @@ class Exec:
         fn = self.frames[-1].fi if self.frames else None
         ev = Event(len(self.trace), kind, fn, node, st.ctx, st.facts, tuple(f.fi.qualname for f in self.frames), **d)
         self.trace.append(ev)
+        if self.sym_bytes and (kind == "raise" or d.get("certain_fail")):
+            # concrete-control scenarios: remember where the path ended and with which exception (for precise try/except)
+            cf = d.get("certain_fail")
+            self._dead = (st, d.get("exc") if kind == "raise" else (cf if isinstance(cf, str) else "LookupError"))
         return ev
 
     def new_obj(self, st: State, kind, cls=None, origin=None, label="") -> Term:
